@@ -208,6 +208,14 @@ func runRouter(tb *model.Table, hist []req) string {
 		if !dynamic {
 			continue
 		}
+		if tb.Opts.CacheCap == 0 {
+			// a cache of capacity zero holds nothing (checked above); the request is resolved all the same
+			if rt == nil || model.RouteIndex(rt) != res.Route {
+				return fmt.Sprintf("capacity 0: resolved to %v, model route %d: %s", rt, res.Route, ctx)
+			}
+			ev.Class("capacity-zero")
+			continue
+		}
 		m := q.method
 		if res.Kind == model.HeadGet {
 			m = "GET"
@@ -259,7 +267,7 @@ func propRouter(t *rapid.T) {
 	o.NotAllowed = rapid.Bool().Draw(t, "handle405")
 	o.Fallback = rapid.IntRange(0, 3).Draw(t, "fallback") == 0
 	o.Caching = true
-	o.CacheCap = rapid.IntRange(1, ev.Pick(4, 8)).Draw(t, "cap")
+	o.CacheCap = rapid.IntRange(0, ev.Pick(4, 8)).Draw(t, "cap")
 	o.Via, o.Order = model.GenVia(t), model.GenOrder(t)
 	o.CacheStyle = model.GenCacheStyle(t)
 	tc := model.TableCfg{MaxRoutes: 6, Gen: model.GenCfg{MaxSegs: 3}, Fallback: o.Fallback}
@@ -384,3 +392,63 @@ func propRaceOps(t *rapid.T) {
 }
 
 func TestRaceOps(t *testing.T) { rapid.Check(t, propRaceOps) }
+
+// propLRUWithReaders: "a key just read is the most recent" while other goroutines only LOOK at the cache (Has, Len) -
+// looking changes no order, so the sequential model still decides what is evicted.  One goroutine runs the script
+// Set a, Set b, Get a, Set c (capacity 2: b must go, a must stay) over and over with fresh keys.
+func propLRUWithReaders(t *rapid.T) {
+	ev.Case()
+	capacity := rapid.IntRange(2, 3).Draw(t, "cap")
+	readers := rapid.IntRange(1, 4).Draw(t, "readers")
+	rounds := rapid.IntRange(50, ev.Pick(300, 3000)).Draw(t, "rounds")
+	c := rux.NewCachedRoutes(capacity)
+	route := rux.NewNamedRoute("v", "/x", func(*rux.Context) {})
+	stop := make(chan struct{})
+	var wg sync.WaitGroup
+	for g := 0; g < readers; g++ {
+		wg.Add(1)
+		go func(g int) {
+			defer wg.Done()
+			for i := 0; ; i++ {
+				select {
+				case <-stop:
+					return
+				default:
+				}
+				_ = c.Has(fmt.Sprintf("GET/r%d", i%7))
+				_ = c.Len()
+			}
+		}(g)
+	}
+	msg := ""
+	for i := 0; i < rounds && msg == ""; i++ {
+		keys := make([]string, capacity+1)
+		for j := range keys {
+			keys[j] = fmt.Sprintf("GET/k%d-%d", i, j)
+		}
+		for _, k := range keys[:capacity] {
+			c.Set(k, route)
+		}
+		if _, ok := c.Get(keys[0]); !ok { // the oldest key is read: now it is the most recent one
+			msg = fmt.Sprintf("round %d: %s just stored is not found", i, keys[0])
+			break
+		}
+		c.Set(keys[capacity], route) // full: the least recently used key goes - that is keys[1]
+		if !c.Has(keys[0]) || c.Has(keys[1]) || !c.Has(keys[capacity]) || c.Len() > capacity {
+			msg = fmt.Sprintf("round %d, capacity %d, %d readers: after Set %v, Get %s, Set %s the cache holds %s=%v %s=%v %s=%v len=%d; the key just read must stay, the least recently used one must go",
+				i, capacity, readers, keys[:capacity], keys[0], keys[capacity], keys[0], c.Has(keys[0]), keys[1], c.Has(keys[1]), keys[capacity], c.Has(keys[capacity]), c.Len())
+		}
+	}
+	close(stop)
+	wg.Wait()
+	ev.Eval()
+	if msg != "" {
+		t.Fatalf("%s", msg)
+	}
+	ev.ClassN("lru-rounds-with-concurrent-readers", rounds)
+	ev.NonTrivial(fmt.Sprint("readers", capacity, readers, rounds), func() string {
+		return fmt.Sprintf("capacity %d, %d readers, %d rounds", capacity, readers, rounds)
+	})
+}
+
+func TestPropLRUWithReaders(t *testing.T) { rapid.Check(t, propLRUWithReaders) }
